@@ -52,6 +52,10 @@ func c10Gen(rt *rapid.T) c10Case {
 		lo = 0
 	}
 	na := rapid.IntRange(lo, int(c.MaxActions)+1).Draw(rt, "nactions")
+	if rapid.IntRange(0, 11).Draw(rt, "hugeCount") == 0 {
+		// the limit is a uint8 but the wire format does not cap the number of actions
+		na = rapid.SampledFrom([]int{255, 256, 257, 256 + int(c.MaxActions), 257 + int(c.MaxActions), 512, 512 + int(c.MaxActions)}).Draw(rt, "nactionsHuge")
+	}
 	rng := func(label string) (int64, int64) {
 		s := rapid.SampledFrom([]int64{-1, -1, -1, c.Time, c.Time + 1, c.Time - 1, 0, -2}).Draw(rt, label+"start")
 		e := rapid.SampledFrom([]int64{-1, -1, -1, c.Time, c.Time + 1, c.Time - 1, 0, -2}).Draw(rt, label+"end")
@@ -59,7 +63,9 @@ func c10Gen(rt *rapid.T) c10Case {
 	}
 	for i := 0; i < na; i++ {
 		a := fixture.ActSpec{Start: -1, End: -1, Nonce: uint64(i)}
-		if rapid.IntRange(0, 3).Draw(rt, fmt.Sprintf("a%drange", i)) == 0 {
+		// huge action lists stay plain: with hundreds of actions a drawn range would almost surely
+		// make the tx inactive and hide the count check
+		if na < 255 && rapid.IntRange(0, 3).Draw(rt, fmt.Sprintf("a%drange", i)) == 0 {
 			a.Start, a.End = rng(fmt.Sprintf("a%d", i))
 		}
 		tx.Actions = append(tx.Actions, a)
@@ -76,7 +82,7 @@ func c10Boundary(c c10Case) bool {
 	if e == t || e == t+w || e == t-1 || e == t+w+1 || e%1000 == 1 || e%1000 == 999 || e%1000 == -1 || e%1000 == -999 {
 		return true
 	}
-	if len(c.Tx.Actions) == int(c.MaxActions) || len(c.Tx.Actions) == int(c.MaxActions)+1 {
+	if len(c.Tx.Actions) == int(c.MaxActions) || len(c.Tx.Actions) == int(c.MaxActions)+1 || len(c.Tx.Actions) >= 255 {
 		return true
 	}
 	b := func(s, en int64) bool { return s == t || en == t || s == t+1 || en == t-1 }
@@ -102,7 +108,11 @@ func c10Run(c c10Case, st *vstat.Stats) error {
 		lbl = "reject:" + reason
 	}
 	raw, _ := json.Marshal(c)
-	st.Case(nt, string(raw), lbl)
+	lbls := []string{lbl}
+	if len(c.Tx.Actions) >= 255 {
+		lbls = append(lbls, "action-count>=255", "huge:"+lbl)
+	}
+	st.Case(nt, string(raw), lbls...)
 	st.Sample(nt, map[string]any{"expiry": c.Tx.Expiry, "time": c.Time, "window": c.Window, "actions": len(c.Tx.Actions), "max": c.MaxActions, "expect": lbl})
 
 	tx := c.Tx.Build()
